@@ -1,8 +1,11 @@
 """C19 — fail-fast and Ctrl-C stop new work, release everything, and exit non-zero."""
 import collections
+import os
+import sys
 import clirun
 import clifam
 import vlib
+import drvmodel
 from props import C17
 
 PID = "C19"
@@ -116,6 +119,41 @@ def check_release(c, r, ju, t_cancel, kind):
     return None
 
 
+def cancel_trace(r, sig):
+    """engine-side events of a run interrupted by the signal [sig] -> automaton / model trace with the Cancel event placed"""
+    _, mgmt = C17.build_trace(r["events"])
+    evs = r["events"]
+    lim = sig["t"] + MARGIN * 1000000
+    # a session spawned just before the token was set logs its START (and the request already written to its pipe) late,
+    # possibly after its siblings were shut down: such sessions are checked directly (EOF reached, none after the margin), not by the automaton
+    aborted = {e["pid"] for e in evs if e["ev"] == "START" and e["t"] > sig["t"] and e["pid"] != mgmt}
+    # requests already written when the token was set are abandoned by the CLI, so an engine process may log them (and its START)
+    # after the CLI has begun to shut the file's other sessions down: after the signal, events of a database are moved in front of the
+    # first close logged for that database (pipes are FIFO per session, so a session's own close is always logged after its requests)
+    seq = [e for e in evs if e["ev"] != "SIGNAL" and e["pid"] not in aborted]
+    norm = []
+    first_close = {}
+    for e in seq:
+        if e["t"] > sig["t"] and e["pid"] != mgmt:
+            if e["ev"] in ("EOF", "EXIT"):
+                first_close.setdefault(e["db"], len(norm))
+            elif e["db"] in first_close:
+                i = first_close[e["db"]]
+                norm.insert(i, e)
+                first_close = {k: (v + 1 if v >= i else v) for k, v in first_close.items()}
+                continue
+        norm.append(e)
+    tr_c, placed = [], False
+    for e in norm:
+        if not placed and e["t"] > lim and not (e["pid"] != mgmt and e["ev"] == "SQL"):
+            tr_c.append(["cancel"]); placed = True
+        part, _ = build_one(e, mgmt)
+        tr_c += part
+    if not placed:
+        tr_c.append(["cancel"])
+    return tr_c
+
+
 def execute(cases, tier):
     disagreements = []
     cats = collections.Counter()
@@ -142,6 +180,23 @@ def execute(cases, tier):
                     spec = spec or "contradicts L1: file without a status: %r" % got
             if spec:
                 disagreements.append({"case": c, "impl": {"rc": r["rc"], "status": got, "stderr": r["stderr"][-400:]}, "model": None, "spec": spec, "broken": "corr_C19_cancel"})
+            elif c["jobs"] and not r["hung"]:
+                # the run as a run of the driver model (coq/Driver.v) under fail-fast
+                def run_once(c=c):
+                    r2, _ = run(c, [], ["--fail-fast"], junit=False)
+                    return r2, C17.build_trace(r2["events"])[0], clirun.status_lines(r2["stdout"])
+                try:
+                    wire, exp = drvmodel.model_case(c, C17.build_trace(r["events"])[0], [(p, tag) for p, tag, _ in clirun.status_lines(r["stdout"])], c["jobs"], False, True)
+                    why = drvmodel.compare(vlib.run_model("driver", [wire])[0], exp, r["rc"])
+                except drvmodel.Unexplained as ex:
+                    why = str(ex)
+                cats["driver_model_replayed_fail_fast"] += 1
+                if why:
+                    cats["driver_model_rechecked"] += 1
+                    why = drvmodel.recheck(c, run_once, c["jobs"], False, True)
+                if why:
+                    disagreements.append({"case": c, "impl": {"stdout": r["stdout"][-800:], "rc": r["rc"]}, "model": "coq/Driver.v replayed on the schedule reconstructed from the run",
+                                          "spec": None, "note": "the run is not a run of the driver model: " + why, "broken": "corr_C19_driver_model"})
             continue
         if c["meta"]["kind"] == "sigpause":
             r, ju = run(c, [], [])
@@ -181,38 +236,33 @@ def execute(cases, tier):
                 continue
             spec = check_release(c, r, ju, sig["t"], "Ctrl-C at request %d of %d" % (k, nreq))
             if c["jobs"]:
-                _, mgmt = C17.build_trace(r["events"])
-                evs = r["events"]
-                lim = sig["t"] + MARGIN * 1000000
-                # a session spawned just before the token was set logs its START (and the request already written to its pipe) late,
-                # possibly after its siblings were shut down: such sessions are checked directly (EOF reached, none after the margin), not by the automaton
-                aborted = {e["pid"] for e in evs if e["ev"] == "START" and e["t"] > sig["t"] and e["pid"] != mgmt}
-                # requests already written when the token was set are abandoned by the CLI, so an engine process may log them (and its START)
-                # after the CLI has begun to shut the file's other sessions down: after the signal, events of a database are moved in front of the
-                # first close logged for that database (pipes are FIFO per session, so a session's own close is always logged after its requests)
-                seq = [e for e in evs if e["ev"] != "SIGNAL" and e["pid"] not in aborted]
-                norm = []
-                first_close = {}
-                for e in seq:
-                    if e["t"] > sig["t"] and e["pid"] != mgmt:
-                        if e["ev"] in ("EOF", "EXIT"):
-                            first_close.setdefault(e["db"], len(norm))
-                        elif e["db"] in first_close:
-                            i = first_close[e["db"]]
-                            norm.insert(i, e)
-                            first_close = {k: (v + 1 if v >= i else v) for k, v in first_close.items()}
-                            continue
-                    norm.append(e)
-                tr_c, placed = [], False
-                for e in norm:
-                    if not placed and e["t"] > lim and not (e["pid"] != mgmt and e["ev"] == "SQL"):
-                        tr_c.append(["cancel"]); placed = True
-                    part, _ = build_one(e, mgmt)
-                    tr_c += part
-                if not placed:
-                    tr_c.append(["cancel"])
+                tr_c = cancel_trace(r, sig)
                 mcases.append([c["jobs"], [], tr_c])
                 rows.append((c, k, r, tr_c))
+                # the interrupted run as a run of the driver model (coq/Driver.v): the signal's place among the engine-side events is known to
+                # +-MARGIN only, so the reconstruction puts the Ctrl-C choice where the first cancelled file needs it; a run that is not
+                # reproduced is repeated (same scenario, same request) and reported only if it is not reproduced any of three times
+                def replay(r_, sig_):
+                    try:
+                        wire, exp = drvmodel.model_case(c, cancel_trace(r_, sig_), [(p, tag) for p, tag, _ in clirun.status_lines(r_["stdout"])], c["jobs"], False, False)
+                        return drvmodel.compare(vlib.run_model("driver", [wire])[0], exp, r_["rc"])
+                    except drvmodel.Unexplained as ex:
+                        return str(ex)
+                why = replay(r, sig)
+                tries = 0
+                while why and tries < 2:
+                    tries += 1
+                    cats["driver_model_rechecked"] += 1
+                    r2, _ = run(c, [{"at_request": k, "signal": "INT", "grace_ms": GRACE}], [], junit=False)
+                    sig2 = next((e for e in r2["events"] if e["ev"] == "SIGNAL"), None)
+                    if sig2 is None or r2["hung"]:
+                        why = None if sig2 is None else "the CLI did not terminate"
+                        break
+                    why = replay(r2, sig2)
+                cats["ctrlc_runs_reproduced_by_driver_model=%s" % ("yes" if not why else "no")] += 1
+                if why:
+                    disagreements.append({"case": dict(c, k=k), "impl": {"stdout": r["stdout"][-800:], "rc": r["rc"]}, "model": "coq/Driver.v replayed on the schedule reconstructed from the run",
+                                          "spec": None, "note": "the interrupted run is not a run of the driver model: " + why, "broken": "corr_C19_driver_model"})
             if spec:
                 disagreements.append({"case": dict(c, k=k), "impl": {"rc": r["rc"], "stderr": r["stderr"][-400:], "events": r["events"][-12:]}, "model": None,
                                       "spec": spec, "broken": "corr_C19_cancel"})
